@@ -263,9 +263,9 @@ func (c *UDPConn) sync() {
 
 func (c *UDPConn) netw() string { return "udp" }
 
-func (c *UDPConn) read(b []byte) (int, netip.AddrPort, error) {
+func (c *UDPConn) readT(b []byte) (int, netip.AddrPort, bool, error) {
 	if !c.ok() {
-		return 0, netip.AddrPort{}, syscall.EINVAL
+		return 0, netip.AddrPort{}, false, syscall.EINVAL
 	}
 	c.sync()
 	raceDisable()
@@ -282,7 +282,12 @@ func (c *UDPConn) read(b []byte) (int, netip.AddrPort, error) {
 		raceWriteRange(b, p.n)
 	}
 	c.sync()
-	return p.n, p.from, err
+	return p.n, p.from, p.trunc, err
+}
+
+func (c *UDPConn) read(b []byte) (int, netip.AddrPort, error) {
+	n, from, _, err := c.readT(b)
+	return n, from, err
 }
 
 func (c *UDPConn) ReadFromUDP(b []byte) (int, *net.UDPAddr, error) {
@@ -311,8 +316,26 @@ func (c *UDPConn) Read(b []byte) (int, error) {
 }
 
 func (c *UDPConn) ReadMsgUDP(b, oob []byte) (n, oobn, flags int, addr *net.UDPAddr, err error) {
-	n, from, err := c.read(b)
-	return n, 0, 0, udpAddr(from), err
+	n, flags, from, err := c.readMsg(b)
+	if err != nil {
+		return n, 0, flags, nil, err
+	}
+	return n, 0, flags, udpAddr(from), nil
+}
+
+func (c *UDPConn) ReadMsgUDPAddrPort(b, oob []byte) (n, oobn, flags int, addr netip.AddrPort, err error) {
+	n, flags, from, err := c.readMsg(b)
+	return n, 0, flags, from, err
+}
+
+// readMsg: recvmsg(2) reports a datagram that did not fit the buffer with MSG_TRUNC.
+func (c *UDPConn) readMsg(b []byte) (int, int, netip.AddrPort, error) {
+	n, from, trunc, err := c.readT(b)
+	flags := 0
+	if err == nil && trunc {
+		flags |= syscall.MSG_TRUNC
+	}
+	return n, flags, from, err
 }
 
 func (c *UDPConn) write(b []byte, to netip.AddrPort, hasTo bool) (int, error) {
